@@ -29,6 +29,10 @@ type PoolTx struct {
 	Gas      uint64 `json:"g"`
 	To       int    `json:"to"`
 	Ref      []int  `json:"ref,omitempty"` // [block id, index]: submit exactly that universe transaction
+	// Fit > 0: the value is chosen so that the transaction is exactly affordable at
+	// FitPrice against the sender's balance after universe block Fit (a later head)
+	Fit      int    `json:"fit,omitempty"`
+	FitPrice uint64 `json:"fit_price,omitempty"`
 }
 
 type PoolOp struct {
@@ -139,6 +143,14 @@ func GenPoolPlan(rng *kernel.RNG, env *kernel.Env, k int) any {
 		}
 		if rng.Bool(0.1) {
 			p.Ops = append(p.Ops, PoolOp{Kind: "gasprice", Price: uint64(rng.Range(1, 4)) * gwei})
+		}
+		if rng.Bool(0.35) && len(d.Blocks) > 0 {
+			// a transaction exactly affordable at the head this delivery leads to, then its
+			// price-bumped replacement (which costs more than that head's balance allows)
+			from, to, price := rng.Intn(acc), rng.Intn(acc), uint64(rng.Range(1, 5))*gwei
+			tip := d.Blocks[len(d.Blocks)-1]
+			p.Ops = append(p.Ops, PoolOp{Kind: "add", Txs: []PoolTx{{From: from, To: to, Gas: 21000, Price: price, Value: "0", Fit: tip, FitPrice: price}}})
+			p.Ops = append(p.Ops, PoolOp{Kind: "add", Txs: []PoolTx{{From: from, To: to, Gas: 21000, Price: price*2 + gwei, Value: "0", Fit: tip, FitPrice: price}}})
 		}
 		p.Ops = append(p.Ops, PoolOp{Kind: "insert", Blocks: d.Blocks})
 		if p.DelayReset {
@@ -306,6 +318,15 @@ func (r *poolRun) mkTx(t PoolTx) *types.Transaction {
 	val, ok := new(big.Int).SetString(t.Value, 10)
 	if !ok {
 		val = big.NewInt(0)
+	}
+	if t.Fit > 0 && t.Fit < len(r.u.Blocks) {
+		if fst, err := r.u.O.StateAt(r.u.Blocks[t.Fit].Root()); err == nil {
+			v := new(big.Int).Sub(fst.GetBalance(r.u.Addrs[from]), new(big.Int).Mul(big.NewInt(int64(t.Gas)), new(big.Int).SetUint64(t.FitPrice)))
+			if v.Sign() > 0 {
+				val = v
+				r.col.Inc("probe_tx_fitted_to_a_later_heads_balance")
+			}
+		}
 	}
 	tx := types.NewTransaction(uint64(nonce), r.u.Addrs[t.To%len(r.u.Addrs)], val, t.Gas, new(big.Int).SetUint64(t.Price), nil)
 	signed, err := types.SignTx(tx, types.MakeSigner(r.u.Cfg, r.n.BC.CurrentBlock().Number()), r.u.Keys[from])
